@@ -74,6 +74,8 @@ def resolve_global(interp, mod, name, node=None):
         v = I.RepoFunc(mod, n, None, n.name)
     elif isinstance(n, ast.ClassDef):
         v = I.ClassRef(mod, n)
+    elif isinstance(n, (ast.Assign, ast.AnnAssign)) and _is_dyn_dataclass_instance(interp, mod, n.value) is not None:
+        v = _is_dyn_dataclass_instance(interp, mod, n.value)
     elif isinstance(n, (ast.Assign, ast.AnnAssign)):
         st0 = I.State(mod=mod)
         v = interp.ev(n.value, st0)
@@ -106,6 +108,69 @@ def resolve_global(interp, mod, name, node=None):
         raise Outside(f"global {name} bound by {type(n).__name__}", node)
     mod._global_cache[name] = v
     return v
+
+
+class DynInstance:
+    """instance of a class built by dataclasses.make_dataclass(name, fields=<list literal>, bases=(B,)) with all defaults:
+    attribute values are read from the field list's AST (entries written as literal tuples) and from the base class"""
+
+    def __init__(self, mod, fields_node, bases):
+        self.mod = mod
+        self.fields_node = fields_node
+        self.bases = bases
+
+    def leaves(self):
+        return []
+
+    def rebuild(self, leaves):
+        return self
+
+    def sig(self):
+        return ("DynInstance",)
+
+
+def _is_dyn_dataclass_instance(interp, mod, value):
+    I = _I()
+    if not (isinstance(value, ast.Call) and isinstance(value.func, ast.Name) and not value.args and not value.keywords):
+        return None
+    cn = mod.toplevel(value.func.id)
+    if not isinstance(cn, (ast.Assign, ast.AnnAssign)):
+        return None
+    mk = cn.value
+    if not (isinstance(mk, ast.Call) and _deco_name(mk.func) == "make_dataclass"):
+        return None
+    fields = None
+    bases = []
+    for kw in mk.keywords:
+        if kw.arg == "fields" and isinstance(kw.value, ast.Name):
+            fn = mod.toplevel(kw.value.id)
+            if isinstance(fn, (ast.Assign, ast.AnnAssign)) and isinstance(fn.value, ast.List):
+                fields = fn.value
+        if kw.arg == "bases" and isinstance(kw.value, ast.Tuple):
+            for b in kw.value.elts:
+                if isinstance(b, ast.Name):
+                    bv = resolve_global(interp, mod, b.id)
+                    if isinstance(bv, I.ClassRef):
+                        bases.append(bv)
+    if fields is None:
+        return None
+    return DynInstance(mod, fields, bases)
+
+
+def dyn_getattr(interp, st, inst, attr, node):
+    I = _I()
+    for e in inst.fields_node.elts:
+        if isinstance(e, ast.Tuple) and len(e.elts) == 3 and isinstance(e.elts[0], ast.Constant) and e.elts[0].value == attr:
+            f = e.elts[2]
+            if isinstance(f, ast.Call):
+                for kw in f.keywords:
+                    if kw.arg == "default":
+                        return interp.ev(kw.value, I.State(mod=inst.mod))
+    for b in inst.bases:
+        r = class_attr(interp, b, attr)
+        if isinstance(r, tuple) and r[0] == "const":
+            return r[1]
+    raise Outside(f"attribute {attr} of a make_dataclass instance (not a literal entry of the field list)", node)
 
 
 def resolve_builtin(interp, name, node=None):
@@ -281,6 +346,8 @@ def getattr_value(interp, st, base, attr, node=None):
         if f.classmethod_:
             return I.BoundMethod(cref, f)
         return I.BoundMethod(base, f, node.value if node is not None else None)
+    if isinstance(base, DynInstance):
+        return dyn_getattr(interp, st, base, attr, node)
     if isinstance(base, I.ClassRef):
         r = class_attr(interp, base, attr)
         if attr == "__name__":
